@@ -1836,6 +1836,8 @@ theorem C18_pin_skeleton : FactsC18.skeleton = [
   ("utils.DecodeValid", "if err != nil"),
   ("utils.DecodeValid", "if err != nil"),
   ("utils.DecodeValid", "if err != nil"),
+  ("utils.DecodeValid", "if err != nil"),
+  ("utils.DecodeValid", "if err != nil"),
   ("middleware.AppHeaderMiddleware", "if appHeaders.UserId == \"\" || appHeaders.PlanId == \"\""),
   ("middleware.AppHeaderMiddleware", "if appHeaders.UserId == \".\" || appHeaders.UserId == \"..\" || strings.ContainsAny(appHeaders.UserId, `/\\`)"),
   ("middleware.AppHeaderMiddleware", "if !ok"),
